@@ -652,7 +652,15 @@ impl Scenario for Hist {
             Flavour::Teardown | Flavour::Lifetimes => true,
             _ => rng.chance(1, 2),
         };
-        HistParams { sched: SchedSpec { policy: Policy::Uniform, seed: rng.next(), script: vec![], weak_cas: 0, stall: 0, starvation: 64, step_cap: 2_000_000, op_step_bound: 0, origin: 0, metric_origin: 0 }, kind, buffer, max_streams, tracked, ops, other_origin, initial_streams: if self.flavour == Flavour::Lifetimes { rng.below(2) as usize } else { 1 } }
+        HistParams { sched: SchedSpec { policy: Policy::Uniform, seed: rng.next(), script: vec![], weak_cas: 0, stall: 0, starvation: 64, step_cap: 2_000_000, op_step_bound: 0, origin: 0, metric_origin: 0 }, kind, buffer, max_streams, tracked, ops, other_origin, initial_streams: if self.flavour == Flavour::Lifetimes {
+            rng.below(2) as usize
+        } else if !kind.is_uni() && rng.chance(1, 4) {
+            // a Multi without any listener: whatever is sent (also through a reserved slot) is delivered to nobody and its
+            // storage is free again at once
+            0
+        } else {
+            1
+        } }
     }
     fn sched<'a>(&self, p: &'a HistParams) -> &'a SchedSpec {
         &p.sched
